@@ -1,4 +1,7 @@
 import EupsModel.Lemmas.FsEff
+import EupsModel.Lemmas.FsTab
+import EupsModel.Lemmas.FsEffForms
+import EupsModel.Lemmas.FsCache
 /-! C08 — an interrupted update never corrupts or loses existing declarations.  Property theorems only
 (model: `Model/FsEff.lean`, helper lemmas: `Lemmas/FsEff.lean`).
 
@@ -130,5 +133,191 @@ example :
                                              (.main (.cfile 0 0), .complete (.chain [⟨0, 0, false⟩]))] }
     (effects {} fs (.declare 0 1 0 (some 0) false)).length = 9 ∧
     RPath.vfile 0 0 ∉ targets fs (.declare 0 1 0 (some 0) false) := by decide
+
+/-! ## Old or new without the hypothesis: exactly what a kill can show
+
+`C08_record_atomic_partial` excludes commands that re-assign a tag (`retag`).  The two theorems below need no such
+hypothesis and together say exactly what every record can look like after a kill: every record other than the chain
+record of the tag being assigned is old or new (`C08_record_atomic_other`); that chain record shows, for every flavor,
+the old assignment, or the new one, or — the D11 gap — nothing for the declaring flavor and the old assignment for
+every other flavor (`C08_tag_chain_forms`).  The third form is the class predicate of the open finding D11. -/
+
+/-- **Old or new for every record but the re-assigned tag's chain record** (full; repaired writers, well-formed
+state, every command — tag moves included —, every crash point). -/
+theorem C08_record_atomic_other (fs : Fs) (hwf : WF fs) (c : Cmd) (k : Nat) (r : RPath)
+    (hr : ∀ p v f tag force t, c = .declare p v f tag force → declareTag fs p f tag = some t → r ≠ .cfile p t) :
+    FsEff.read (crashAt { atomic := true } fs c k) r = FsEff.read fs r ∨
+    FsEff.read (crashAt { atomic := true } fs c k) r = FsEff.read (final { atomic := true } fs c) r := by
+  obtain ⟨j, _, h⟩ := commit_points (steps fs c) fs hwf.noTmp k
+  have hfin : final { atomic := true } fs c = applySteps fs (steps fs c) := expandAll_net _ fs hwf.noTmp
+  unfold FsEff.read
+  rw [hfin]
+  unfold crashAt effects
+  rw [h r]
+  have hc : cnt r (steps fs c) ≤ 1 := by
+    cases c with
+    | declare p v f tag force =>
+      exact cnt_steps_declare fs p v f tag force r (fun t ht => hr p v f tag force t rfl ht)
+    | untag t p f v => exact cnt_steps_untag fs t p f v r
+    | undeclare p v f => exact cnt_steps_undeclare fs hwf.nodup p v f r
+    | undeclareAny p f =>
+      simp only [steps]
+      cases soleVersion fs p f with
+      | none => simp [cnt]
+      | some v =>
+        have := cnt_steps_undeclare fs hwf.nodup p v f r
+        simpa only [steps] using this
+  rcases single_writer r _ hc fs j with e | e
+  · left; rw [e]
+  · right; rw [e]
+
+/-- **The chain record of the tag a `declare` assigns** (full; repaired writers, well-formed state, no hypothesis on
+the command): at every crash point a reader finds in it, for every flavor `g`, either what was there before, or the
+new assignment `f ↦ v` beside the old assignments of the other flavors, or no assignment for `f` beside the old
+assignments of the other flavors.  `cview s p t g` = the version the chain record of `(p, t)` assigns to flavor `g` in
+state `s`. -/
+theorem C08_tag_chain_forms (fs : Fs) (hwf : WF fs) (p v f : Id) (tag : Option Id) (force : Bool) (t : Id)
+    (htag : declareTag fs p f tag = some t) (k : Nat) :
+    (∀ g, cview (crashAt { atomic := true } fs (.declare p v f tag force) k) p t g = cview fs p t g) ∨
+    (∀ g, cview (crashAt { atomic := true } fs (.declare p v f tag force) k) p t g
+        = if g = f then some v else cview fs p t g) ∨
+    (∀ g, cview (crashAt { atomic := true } fs (.declare p v f tag force) k) p t g
+        = if g = f then none else cview fs p t g) := by
+  obtain ⟨j, _, h⟩ := commit_points (steps fs (.declare p v f tag force)) fs hwf.noTmp k
+  have := declare_chain_forms fs p v f tag force t htag j
+  exact forms_congr fs p t f v _ _ (by unfold crashAt effects; exact h (.cfile p t)) this
+
+/-- The third form occurs and is neither the old nor the new record: the state and command of
+`C08_tagmove_gap_witness`, killed after the first effect. -/
+example :
+    let fs : Fs := { dirs := [0], files := [(.main (.vfile 0 0), .complete (.ver [⟨0, false⟩])),
+                                             (.main (.vfile 0 1), .complete (.ver [⟨0, false⟩])),
+                                             (.main (.cfile 0 0), .complete (.chain [⟨0, 0, false⟩]))] }
+    let c : Cmd := .declare 0 1 0 (some 0) false
+    cview fs 0 0 0 = some 0 ∧ cview (crashAt {} fs c 1) 0 0 0 = none ∧ cview (final {} fs c) 0 0 0 = some 1 := by decide
+
+/-! ## Database-held table files (`Model/FsTab.lean`)
+
+`Db` = the record store beside the store of interned table files; `Cmd2` = the commands above (`plain c`) and
+`declareTab p v f tag n` = a forced declaration that hands the table file over as a stream with content `n`, which
+`Eups.declare` copies into the database *after* the records (`utils.copyfile`; repaired, D47: copy beside the
+destination and rename; pinned: unlink, then copy in place).  `crashAt2` is the state a kill before effect `k` leaves;
+its record component is exactly `crashAt` of the command's record part (`C08_tables_records`), so every theorem above
+holds verbatim for the extended commands. -/
+
+/-- The record component of every crash state of an extended command is the crash state of its record part; in
+particular frame, commit points, old-or-new, never-garbled and reader-total carry over. -/
+theorem C08_tables_records (cfg : Cfg) (db : Db) (c : Cmd2) (k : Nat) :
+    (crashAt2 cfg db c k).fs = crashAt cfg db.fs c.onRecords k :=
+  crashAt2_fs cfg db c k
+
+/-- **Frame for table files** (both writers): at every crash point of every command, every table file other than
+the one the command replaces — for a command without a table stream: every table file — reads exactly as before. -/
+theorem C08_table_frame (cfg : Cfg) (db : Db) (c : Cmd2) (k : Nat) (key : TKey)
+    (h : ∀ n, c.tab ≠ some (key, n)) :
+    readTab (crashAt2 cfg db c k) key = readTab db key := by
+  unfold readTab
+  rw [crashAt2_tabs]
+  unfold tabEffects
+  cases hc : c.tab with
+  | none => simp [applyTAll]
+  | some kn =>
+    obtain ⟨k', n⟩ := kn
+    have hne : key ≠ k' := by
+      intro e; subst e; exact h n hc
+    simp only []
+    rw [copy_frame cfg.atomic k' n db.tabs _ (.main key) (by intro e; cases e; exact hne rfl) (by intro e; cases e)]
+
+/-- **The replaced table file is seen old or new** (repaired `copyfile`): at every crash point of a declaration with a
+table stream, the interned table file reads as before the command or holds the new content, never absent, empty or
+truncated unless it was so before. -/
+theorem C08_table_atomic (db : Db) (c : Cmd2) (key : TKey) (n : Nat) (h : c.tab = some (key, n)) (k : Nat) :
+    readTab (crashAt2 { atomic := true } db c k) key = readTab db key ∨
+    readTab (crashAt2 { atomic := true } db c k) key = .content n := by
+  unfold readTab
+  rw [crashAt2_tabs]
+  simp only [tabEffects, h]
+  rcases copy_atomic key n db.tabs (k - (effects { atomic := true } db.fs c.onRecords).length) with e | e
+  · left; rw [e]
+  · right; rw [e]
+
+/-- … and after the completed command it holds the new content. -/
+theorem C08_table_final (db : Db) (c : Cmd2) (key : TKey) (n : Nat) (h : c.tab = some (key, n)) :
+    readTab (crashAt2 { atomic := true } db c (effects2 { atomic := true } db c).length) key = .content n := by
+  unfold readTab
+  rw [crashAt2_tabs]
+  simp only [tabEffects, h, effects2, List.length_append, List.length_map]
+  have : (effects { atomic := true } db.fs c.onRecords).length + (copyEffects true key n).length
+      - (effects { atomic := true } db.fs c.onRecords).length = (copyEffects true key n).length := by omega
+  rw [this, List.take_length, copy_atomic_final]
+
+/-- The pinned `utils.copyfile` (D47, repaired) does not have this property: product `0 0` of flavor `0` is declared
+with an interned table file of content `1` and is redeclared with content `2`; killed after the `unlink` the table
+file of the existing declaration is gone — neither the old nor the new content — and one effect later it is empty. -/
+theorem C08_table_gap_witness :
+    let db : Db := { fs := { dirs := [0], files := [(.main (.vfile 0 0), .complete (.ver [⟨0, false⟩]))] },
+                     tabs := [(.main ⟨0, 0, 0⟩, .full 1)] }
+    let c : Cmd2 := .declareTab 0 0 0 none 2
+    let n1 := (effects { atomic := false } db.fs c.onRecords).length
+    readTab db ⟨0, 0, 0⟩ = .content 1 ∧
+    readTab (crashAt2 { atomic := false } db c (n1 + 1)) ⟨0, 0, 0⟩ = .absent ∧
+    readTab (crashAt2 { atomic := false } db c (n1 + 2)) ⟨0, 0, 0⟩ = .garbled ∧
+    readTab (crashAt2 { atomic := false } db c (n1 + 4)) ⟨0, 0, 0⟩ = .content 2 := by decide
+
+/-- With the repaired `copyfile` the same command leaves the old content until the rename (concrete instance,
+every crash point). -/
+theorem C08_table_gap_repaired :
+    let db : Db := { fs := { dirs := [0], files := [(.main (.vfile 0 0), .complete (.ver [⟨0, false⟩]))] },
+                     tabs := [(.main ⟨0, 0, 0⟩, .full 1)] }
+    let c : Cmd2 := .declareTab 0 0 0 none 2
+    ∀ k, k ≤ (effects2 {} db c).length →
+      readTab (crashAt2 {} db c k) ⟨0, 0, 0⟩ = .content 1 ∨ readTab (crashAt2 {} db c k) ⟨0, 0, 0⟩ = .content 2 := by decide
+
+/-! ## The product cache (`Model/FsCache.lean`)
+
+After every database operation of a command `Eups` saves the product cache: one `utils.AtomicFile` per flavor —
+temporary file, `pickle.dump` into the **buffered** file object (the data reaches the file only when it is flushed at
+`close`; a killed process loses what is buffered), `os.fsync`, close, `os.rename`.  `effects3` = the record effects of
+the command's database operations with the cache saves in between (and the interned table file last); `crashAt3` = the
+state (records, table files, cache files) a kill before effect `k` leaves.  `flavors` = the cache files the command's
+`Eups` object holds (`ProductStack.getFlavors()`), part of the state it starts in. -/
+
+/-- The records at every crash point of the extended effect list are the records at a crash point of the plain model:
+frame, commit points, old-or-new, never-garbled, reader-total and the chain-record forms hold verbatim with the cache
+saves in between. -/
+theorem C08_cache_records (cfg : Cfg3) (flavors : List Id) (db : Db3) (c : Cmd2) (k : Nat) :
+    ∃ k', (crashAt3 cfg flavors db c k).fs = crashAt { atomic := cfg.atomic } db.fs c.onRecords k' := by
+  refine ⟨(recPart ((effects3 cfg flavors db c).take k)).length, ?_⟩
+  unfold crashAt3 crashAt
+  rw [applyAll3_fs]
+  have h := recPart_take (effects3 cfg flavors db c) k
+  rw [recPart_effects3] at h
+  exact congrArg (applyAll db.fs) h
+
+/-- **The cache files are complete at every crash point** (full; the order in the tree: close, then rename): if no
+cache file in place is empty when the command starts, none is at any crash point of any command — for every list of
+flavors whose cache files are saved, the last one included. -/
+theorem C08_cache_complete (atomic : Bool) (flavors : List Id) (db : Db3) (c : Cmd2) (k : Nat)
+    (h : ∀ f, cget db.cache (.main f) ≠ some .empty) :
+    ∀ f, cget (crashAt3 { atomic := atomic, renameFirst := false } flavors db c k).cache (.main f) ≠ some .empty := by
+  unfold crashAt3
+  rw [applyAll3_cache]
+  have hk := cachePart_take (effects3 { atomic := atomic, renameFirst := false } flavors db c) k
+  have := safe_cachePart_effects3 atomic flavors db c db.cache h
+    (cachePart ((effects3 { atomic := atomic, renameFirst := false } flavors db c).take k)).length
+  rw [← hk] at this
+  exact this
+
+/-- Buffered writes matter: with *rename, then close* (not the order in the tree) a kill between the two leaves an
+empty cache file in place — here the file of the LAST flavor saved (`2` = generic), with every other file newer and
+complete; the model with the order of the tree has the old complete file at the same crash point. -/
+theorem C08_cache_rename_before_close_witness :
+    let db : Db3 := { fs := { dirs := [0], files := [(.main (.vfile 0 0), .complete (.ver [⟨0, false⟩]))] },
+                      tabs := [], cache := [(.main 0, .full 0), (.main 2, .full 0)] }
+    let c : Cmd2 := .plain (.undeclare 0 0 0)
+    let bad : Cfg3 := { renameFirst := true }
+    cget (crashAt3 bad [0, 2] db c 11).cache (.main 2) = some .empty ∧
+    cget (crashAt3 {} [0, 2] db c 11).cache (.main 2) = some (.full 0) ∧
+    cget (crashAt3 {} [0, 2] db c 12).cache (.main 2) = some (.full 1) := by decide
 
 end EupsModel.C08
